@@ -189,6 +189,43 @@ def run(ctx):
             if bdrift <= 5:
                 ctx.infra("MODEL-DRIFT: decoder: bytes %s (%s) -> Go %s %s used=%s, model %s %s used=%s" % (
                     bitems[o["id"]]["hex"], m["mut"], o["out"], o.get("tree"), o.get("used"), want, nv.tree_dump(m["tree"]) if m["ok"] else "", m["used"]))
+    # ---- size limits (NeoVM!LimitRows): containers of MAX-1 / MAX / MAX+1 elements at several positions, byte arrays
+    # and total sizes around the 1 MiB limit; what the model says can be built and serialized must round-trip
+    lr = ctx.tlc("NeoVM_MC", cfg="NeoVM_Limits.cfg", workers=1, timeout=600)
+    n_limits = 0
+    if lr.status != "ok":
+        ctx.infra("TLC limits run failed: %s %s %s" % (lr.status, lr.violated, lr.errors[:2]))
+    else:
+        lrows = []
+        seenl = set()
+        for o in lr.prints.get("ROW", []):
+            if "limit" in o and vf.canon(o["limit"]) not in seenl:
+                seenl.add(vf.canon(o["limit"]))
+                lrows.append(o)
+        litems = [dict(id=i, fam=o["limit"]["fam"], k=o["limit"]["k"], n=o["limit"]["n"], pos=o["limit"]["pos"]) for i, o in enumerate(lrows)]
+        lres, ldeaths = nv.run_children_parallel(ctx, binary, "TestVerifLimits", litems, "limits", 300, min(nproc, 4), key="items", defop="limit")
+        for o in lres:
+            n_limits += 1
+            row, ver = lrows[o["id"]]["limit"], lrows[o["id"]]["verdict"]
+            rel = {1023: "MAX-1", 1024: "MAX", 1025: "MAX+1"}.get(row["n"], "n%d" % row["n"])
+            name = "%s:%s:%s:pos%d" % (row["fam"], row["k"], rel, row["pos"])
+            if o["out"] in ("crash", "stack-overflow", "oom", "timeout"):
+                ctx.violation("SizeLimit:%s:%s" % (name, o["out"]), "limit row %s -> %s %s" % (row, o["out"], (o.get("err") or "")[:200]), {"limit": row})
+            elif (o["out"] != "unbuildable") != ver["build"]:
+                ctx.infra("MODEL-DRIFT: limit row %s: buildable in Go = %s, model = %s (%s)" % (row, o["out"] != "unbuildable", ver["build"], o.get("err")))
+            elif ver["ser"]:
+                if o["out"] == "ser-err":
+                    ctx.violation("Serialize:at-size-limit:%s:rejected" % name, "value within all limits (%s, model length %d) refused by Serialize: %s" % (row, ver["len"], o.get("err")), {"limit": row})
+                elif o["out"] in ("deser-err", "unequal"):
+                    ctx.violation("RoundTrip:at-size-limit:%s:%s" % (name, o["out"]), "value within all limits (%s) serialized to %d bytes but Deserialize gives %s %s"
+                                  % (row, o.get("len", 0), o["out"], o.get("err") or ""), {"limit": row})
+                elif o.get("len") != ver["len"]:
+                    ctx.infra("MODEL-DRIFT: limit row %s: serialized length %s, model %s" % (row, o.get("len"), ver["len"]))
+            elif o["out"] == "ok" and row["fam"] == "blob":
+                ctx.infra("MODEL-DRIFT: limit row %s serialized although the model's length %d exceeds the limit" % (row, ver["len"]))
+        if len(lres) != len(litems):
+            ctx.infra("limits harness answered %d of %d rows" % (len(lres), len(litems)))
+        ctx.log("size limits: %d rows (containers at MAX-1/MAX/MAX+1 elements, byte arrays and totals around 1 MiB), %d child deaths" % (len(lres), ldeaths))
     if len(bres) != len(bitems):
         ctx.infra("decoder harness answered %d of %d byte strings" % (len(bres), len(bitems)))
     ctx.log("decoder: %d byte strings (%d mutations of valid encodings + depth family), %d child deaths, %d disagreements" % (len(bitems), len(exp), bdeaths, bdrift))
@@ -198,7 +235,8 @@ def run(ctx):
     for key in list(viol)[:3]:
         r, o = viol[key][0]
         ctx.samples.append({"finding": key, "heap": nv.heap_text(r), "go": o["out"]})
-    return finish(ctx, stats, n_checked + n_bytes, {
+    return finish(ctx, stats, n_checked + n_bytes + n_limits, {
+        "limit_rows_executed": n_limits,
         "heaps": len(allrows), "heaps_cyclic": sum(1 for r in allrows if r["cyc"]),
         "heap_ops_executed": n_checked, "byte_strings_executed": n_bytes,
         "predicted_fatal_marshal_heaps": len(crash_nat), "predicted_fatal_run": len(pick_crash),
@@ -212,7 +250,7 @@ def finish(ctx, stats, n, extra):
     cov = {"states": ctx.stats["states"], "transitions": ctx.stats["transitions"], "traces_validated_against_impl": n, "tlc_runs": stats}
     cov.update(extra)
     ctx.finish("model_checking", cov, [
-        "heaps of <=3 cells x <=2 slots (all kinds; quick: 3 cells of arrays only) plus chains of up to 13 nested containers; leaves are the integer 1, map keys 1..2",
+        "size-limit rows: one container of 0/1/MAX-1/MAX/MAX+1 leaves (array, struct, map; top level, first and second element of an outer array) and byte arrays / totals around the 1 MiB limit", "heaps of <=3 cells x <=2 slots (all kinds; quick: 3 cells of arrays only) plus chains of up to 13 nested containers; leaves are the integer 1, map keys 1..2",
         "depth limit: values with at most MAX_STRUCT_DEPTH nested containers must round-trip; deeper acyclic values may be accepted or refused (only crashes count)",
         "accept/reject and decoded value of mutated byte strings are compared with the model's decoder; a disagreement is reported as model drift (exit 2), only a crash/hang is a violation of the statement",
         "heaps on which the as-coded model predicts a fatal or slow run are sampled per seed (every structural class represented); all others are executed",
